@@ -91,5 +91,6 @@ def install():
     _PATCH_REGISTRATIONS[int] = sym_int
     PreciseIeeeSymbolicFloat.__int__ = lambda self: _ieee_int(self)
     _PATCH_REGISTRATIONS[math.sqrt] = sqrt
+    RealBasedSymbolicFloat.sqrt = lambda self: sqrt(self)      # np.sqrt on object arrays (np.linalg.norm) calls .sqrt()
     _PATCH_REGISTRATIONS[math.degrees] = degrees
     _PATCH_REGISTRATIONS[math.radians] = radians
